@@ -556,10 +556,7 @@ theorem builder_env_exact_from (start : Bool) (penv : List Nat) (ops : List Op) 
   cases xp with
   | inr h => simp [specEnvFrom, h.1, h.2]
   | inl h =>
-    have hv : (match c.env with
-        | .provided v _ => v
-        | _ => []) = envVars c.env := by cases c.env <;> rfl
-    simp only [specEnvFrom, h.1, if_false, hv]
+    simp only [specEnvFrom, h.1, if_false]
     cases hc : c'.env with
     | provided v p =>
       have := w'.2
@@ -602,7 +599,6 @@ theorem envRounds_eq (start : Bool) (penv : List Nat) : ∀ (opss : List (List B
     | some b1 =>
       simp only [Option.bind_some, spawn_preserves_config, spawnB_clean, Option.map_map]
       have := ih' b1
-      simp only [Option.map_map] at this
       cases hb : buildersOf true start b1 r with
       | none =>
         rw [hb] at this
